@@ -157,6 +157,13 @@ def v_np_ptm1(c, swells):
     ihmax = 100
     wspd, wdir, dpt = float(r.uniform(3, 25)), float(r.uniform(0, 360)), float(r.uniform(10, 300))
     agefac, wscut = c.rng.choice([1.7, 1.0, 2.5]), c.rng.choice([0.3333, 0.1, 0.6])
+    tie = c.rng.choice([None, None, "calm", "storm"])
+    if tie == "calm":
+        # no bin inside the wind-sea region: every fraction is exactly 0 = cutoff -> "exceeds" is false
+        wspd, wscut = 0.0, 0.0
+    elif tie == "storm":
+        # every bin with a downwind component is inside: fractions of 1 = cutoff must stay swells
+        wspd, wscut = 500.0, 1.0
     labels = specpart.partition(np.ascontiguousarray(S, dtype=np.float32), ihmax)
     n = int(labels.max())
     req = {"more": n + 1, "fewer": max(1, n - 2), "equal": max(1, n)}[swells]
@@ -185,6 +192,11 @@ def v_np_ptm2(c, swells):
     ihmax = 100
     wspd, wdir, dpt = float(r.uniform(3, 25)), float(r.uniform(0, 360)), float(r.uniform(10, 300))
     agefac, wscut = 1.7, c.rng.choice([0.3333, 0.1, 0.6])
+    tie = c.rng.choice([None, None, "calm", "storm"])
+    if tie == "calm":
+        wspd, wscut = 0.0, 0.0
+    elif tie == "storm":
+        wspd, wscut = 500.0, 1.0
     labels = specpart.partition(np.ascontiguousarray(S, dtype=np.float32), ihmax)
     n = int(labels.max())
     req = {"more": n + 1, "fewer": max(1, n - 2)}[swells]
